@@ -36,7 +36,7 @@ def gen_cases(tier, rng):
         exp = G.expected_store(args, uses)
         et = 'exp:' + ';'.join('%s=%s' % kv for kv in sorted(exp.items()))
         for _ in range(4):
-            w = G.spell(rng, uses, args, True, stats)
+            w = G.spell_with_ddash(rng, uses, args, True, stats)
             cases.append(G.case_line(args, cons, w, extra=(et,)))
     return {'cases': cases, 'exhaustive': False,
             'scopes': ['%d cases: random configurations x valid lines x 4 spellings; productions used: %s' % (len(cases), stats)]}
